@@ -5,7 +5,7 @@
     are Model/Pred.v (tied to the Go code by the correspondence run).
     [FR x] is the real number the float64 [x] denotes; [detR a b c] the exact determinant. *)
 From Coq Require Import ZArith Reals Floats Bool.
-From Geo Require Import Base.GoPrim Base.F64 Base.Exact Gen.R3 Gen.S2Pred Model.Pred Proofs.C02_Exact Proofs.C02_Float Proofs.C02_SoS.
+From Geo Require Import Base.GoPrim Base.F64 Base.Exact Gen.R3 Gen.S2Pred Model.Pred Proofs.C02_Exact Proofs.C02_Float Proofs.C02_SoS Proofs.C02_SoSGlobal.
 Local Open Scope R_scope.
 
 (** exact stage ------------------------------------------------------------------------- *)
@@ -170,3 +170,32 @@ Theorem exact_sign_is_sign_of_infinitesimally_perturbed_determinant : forall a b
     exact_sign a b c = sgnR (pert_det_ranked a b c e) /\ pert_det_ranked a b c e <> 0.
 Proof. exact exact_sign_sos. Qed.
 Print Assumptions exact_sign_is_sign_of_infinitesimally_perturbed_determinant.
+
+(** ONE FIXED INFINITESIMAL PERTURBATION FOR A WHOLE POINT SET. [pts] is any finite set of finite
+    points listed in strictly increasing lexicographic order ([prow pts i] its i-th member);
+    [gdet pts i j k eps] is the determinant of the rows i, j, k where row n is moved by
+    (eps^(4*8^n), eps^(2*8^n), eps^(8^n)) — a perturbation of the POINT, independent of the other
+    two arguments. [eventually P]: P holds for all sufficiently small eps > 0. *)
+Theorem exact_sign_is_one_fixed_perturbation_of_the_point_set : forall pts,
+  (forall i, (i < plen pts)%nat -> finite (prow pts i)) ->
+  (forall i j, (i < j)%nat -> (j < plen pts)%nat -> cmp_gt (prow pts j) (prow pts i) = true) ->
+  eventually (fun e => forall i j k,
+    (i < plen pts)%nat -> (j < plen pts)%nat -> (k < plen pts)%nat -> i <> j -> j <> k -> i <> k ->
+    exact_sign (prow pts i) (prow pts j) (prow pts k) = sgnR (gdet pts i j k e) /\ gdet pts i j k e <> 0).
+Proof. exact sos_consistent. Qed.
+Print Assumptions exact_sign_is_one_fixed_perturbation_of_the_point_set.
+
+(** no set of answers contradicts a real point configuration: three-term Grassmann-Pluecker *)
+Theorem exact_sign_answers_are_realisable : forall pts,
+  (forall i, (i < plen pts)%nat -> finite (prow pts i)) ->
+  (forall i j, (i < j)%nat -> (j < plen pts)%nat -> cmp_gt (prow pts j) (prow pts i) = true) ->
+  forall a b c d f, (a < plen pts)%nat -> (b < plen pts)%nat -> (c < plen pts)%nat ->
+    (d < plen pts)%nat -> (f < plen pts)%nat ->
+    a <> b -> a <> c -> a <> d -> a <> f -> b <> c -> b <> d -> b <> f -> c <> d -> c <> f -> d <> f ->
+    let X p q r := exact_sign (prow pts p) (prow pts q) (prow pts r) in
+    let t1 := (X a b c * X a d f)%Z in
+    let t2 := (- (X a b d * X a c f))%Z in
+    let t3 := (X a b f * X a c d)%Z in
+    ~ (0 < t1 /\ 0 < t2 /\ 0 < t3)%Z /\ ~ (t1 < 0 /\ t2 < 0 /\ t3 < 0)%Z.
+Proof. exact chirotope_gp. Qed.
+Print Assumptions exact_sign_answers_are_realisable.
